@@ -59,3 +59,14 @@ Example C18_example :
   weights (opar (nth 2 (fst (fst r)) dummy_obj)) = [0; 2] /\ lo (snd (fst r) 2%nat) == 0.
 Proof. vm_compute. split; reflexivity. Qed.
 Print Assumptions C18_example.
+
+(* first-order models: the contradiction loss Model.loss_fn reports is the sum over the ROWS (groundings) of every formula
+   of the model; it is non-negative and zero exactly when has_contradiction() is false -- rows that do not cross never
+   contribute, whatever the other rows of the same formula do *)
+From LNN Require Import Fol.
+From LNN.proofs Require Import FolProofs FolLossProofs.
+Theorem C18_fol_contradiction_loss : forall k reg s,
+  (forall i, In i reg -> alpha_ok (falpha (getf k i))) -> FRange s ->
+  0 <= f_contradiction_loss k reg s /\ (f_contradiction_loss k reg s == 0 <-> f_has_contradiction k reg s = false).
+Proof. intros k reg s Ha HR. split; [apply f_contradiction_loss_nonneg | apply f_contradiction_loss_zero_iff]; assumption. Qed.
+Print Assumptions C18_fol_contradiction_loss.
